@@ -1,22 +1,35 @@
 ----------------------------- MODULE Trace_Cif -----------------------------
 (* Judges text produced by the real scippneutron.io.cif.  One NDJSON line per written    *)
 (* document:                                                                             *)
-(*   tid, api ("lowlevel": Chunk/Loop/Block/save_cif, "builder": cif.CIF), out ("text" |  *)
-(*   "raised"), text = the produced characters as code points, and what was supplied:     *)
-(*   blocks (low-level: abstract document with cells, see CifDocDefs) or name + calls     *)
-(*   (builder: the calls made on the builder; the expected document is SaveDoc).          *)
+(*   tid, api ("lowlevel": Chunk/Loop/Block/save_cif, "builder": cif.CIF, "objects":       *)
+(*   programs over Chunk/Loop/Block objects), out ("text" | "raised"), text = the produced *)
+(*   characters as code points, and what was supplied: blocks (low-level: abstract         *)
+(*   document with cells, see CifDocDefs), name + calls (builder: the calls made on the    *)
+(*   builder; the expected document is SaveDoc) or ops (objects: the operations performed  *)
+(*   on the objects, the last one being the write; the expected document is ObjDoc).       *)
 (* The text is lexed and parsed by the specification's own CIF 1.1 lexer and parser and   *)
 (* compared with the supplied document.  Every line gets a verdict; a rejected line       *)
 (* prints <<"REJECT", line, tid, clause, block, item, cell, lexical error, parse error,    *)
 (* supplied cell at that place>>.                                                         *)
-EXTENDS CifDocDefs, TLC, Json, IOUtils
+EXTENDS CifObjDefs, TLC, Json, IOUtils
 
 Tr == ndJsonDeserialize(IOEnv.TRACE_FILE)
 
 VARIABLES l, nbad
 tvars == <<l, nbad>>
 
-Supplied(e) == IF e.api = "builder" THEN SaveDoc(e.name, e.calls) ELSE e.blocks
+Supplied(e) == IF e.api = "builder" THEN SaveDoc(e.name, e.calls)
+               ELSE IF e.api = "objects" THEN ObjDoc(e.ops)
+               ELSE e.blocks
+
+(* Programs over the low-level objects supply no dictionary information: whether a block  *)
+(* (e.g. a copy, which io/cif.py gives the coreCIF schema) starts with the dictionary-      *)
+(* conformance loop is not part of what was supplied and not judged here.                   *)
+IsConformLoop(it) == it.k = "loop" /\ it.tags = <<Tg.conform_name, Tg.conform_version, Tg.conform_location>>
+WithoutConform(rd) ==
+    [rd EXCEPT !.blocks = [b \in 1..Len(rd.blocks) |->
+        IF rd.blocks[b].items # <<>> /\ IsConformLoop(rd.blocks[b].items[1])
+        THEN [rd.blocks[b] EXCEPT !.items = Tail(@)] ELSE rd.blocks[b]]]
 
 (* the supplied cell at (or nearest to) the place of the first difference and the first  *)
 (* data name of its item: [t, s, tag]                                                     *)
@@ -34,9 +47,11 @@ Judge(e) ==
     IF e.out = "raised"
     THEN IF HasUnrepresentable(exp) THEN <<"ok", 0, 0, 0, "", "", NoCell>>
          ELSE <<"exception_for_representable_content", 0, 0, 0, "", "", NoCell>>
-    ELSE LET rd == Read(e.text)
+    ELSE LET rd == IF e.api = "objects" THEN WithoutConform(Read(e.text)) ELSE Read(e.text)
              v == DocVerdict(exp, rd)
-         IN <<v[1], v[2], v[3], v[4], rd.le, rd.pe, CellAt(exp, v[2], v[3], v[4])>>
+         IN IF v[1] = "ok" /\ ~MagicOK(e.text)
+            THEN <<"version_identifier_is_not_CIF_1.1", 0, 0, 0, "", "", NoCell>>
+            ELSE <<v[1], v[2], v[3], v[4], rd.le, rd.pe, CellAt(exp, v[2], v[3], v[4])>>
 
 TInit == l = 1 /\ nbad = 0
 TNext == /\ l <= Len(Tr)
